@@ -367,6 +367,19 @@ def write_json(path, obj):
     return path
 
 
+def package_in_use():
+    """The functions under test are never the first thing a process asks of the package: a structure factor, a multiplicity, a reflection list and a
+    lookup come first here (results unused) - what they leave behind in the process is part of the conditions they run under"""
+    from xfab import structure, tools
+    try:
+        at = structure.atom_entry(label="K1", atomtype="K", pos=[0.1, 0.2, 0.3], adp_type="Uiso", adp=0.01, occ=1.0, symmulti=2)
+        structure.StructureFactor([1, 2, -1], [5.0, 6.0, 7.0, 90.0, 100.0, 90.0], "P21", [at], {"K": [0.2, 0.25]})
+        structure.multiplicity([0.1, 0.2, 0.3], sgno=14)
+        tools.genhkl_all([5.0, 6.0, 7.0, 90.0, 100.0, 90.0], 0.0, 0.3, sgno=14)
+    except Exception:
+        pass
+
+
 def pmap(func, items, nproc=None, chunk=None):
     """Parallel map over processes (fork). func must be a module-level function taking one item
     and returning a picklable result. Order preserved."""
